@@ -120,6 +120,14 @@ def rule_verdict(program, ctx):
                         for el in t.elts:
                             if isinstance(el, ast.Name):
                                 local_defs.setdefault(el.id, []).append(n.value)
+        # counters:  n = 0; for t in event.tags: if …: n += 1   -> n mentions what the loop iterates and tests
+        for n in walk_no_nested(fn):
+            if isinstance(n, ast.AugAssign) and isinstance(n.target, ast.Name):
+                for a in __import__("sa.core", fromlist=["ancestors"]).ancestors(n):
+                    if isinstance(a, (ast.For, ast.If)):
+                        local_defs.setdefault(n.target.id, []).append(a.iter if isinstance(a, ast.For) else a.test)
+                    if a is fn:
+                        break
         raises = cfg.stmt_nodes(lambda s: isinstance(s, ast.Raise), kinds=("stmt",))
         for r in walk_no_nested(fn):
             if isinstance(r, ast.Return) and isinstance(r.value, ast.Constant) and r.value.value is False:
